@@ -403,3 +403,35 @@ CLAIMS["C05"] = {
     "design_ref": "DESIGN.md 0, 5 C05",
 }
 NOT_APPLICABLE.pop("C05", None)
+
+PROPS["C03"] = {
+    "quick": [{"name": "portions", "harnesses": ["c02_w_otherbuy_sale_sell"], "jobs": 1, "cbmc_args": SMALL, "mem_gb": 28,
+               "harness_timeout_s": 2400},
+              {"name": "rows", "harnesses": ["c01_sfla_a0_m1", "c01_sfla_a2_m7", "c01_sell_a1_m3"], "jobs": 3}],
+    "thorough": [{"name": "portions", "harnesses": ["c02_w_otherbuy_sale_sell", "c02_w_regbuy_sale_otherbuy_othersell",
+                                                    "c03_lemma_buy_buy_sale_sell"],
+                  "jobs": 2, "cbmc_args": SMALL, "mem_gb": 28, "timeout_s": 20000, "harness_timeout_s": 6000},
+                 {"name": "rows", "harnesses": C01_SFLA + C01_SELL + C01_BUY + C01_ROC, "jobs": 8, "timeout_s": 14000,
+                  "harness_timeout_s": 3000}],
+    "expect_covers": {"c01_roc_a2_m7": 1, "c01_sfla_a2_m7": 1, "c01_sfla_a0_m1": 1, "c01_sfla_a1_m3": 1,
+                      "c01_sell_a1_m1": 1},
+    "functions": WINDOW_FUNCS + STEP_FUNCS,
+    "bounds": WINDOW_BOUNDS + "; rows: " + STEP_BOUNDS,
+    "outside": ("the loop of get_delta_superficial_loss_info that turns the portions into SfLA rows (skip of zero "
+                "portions and of registered buyers, amount = |denied| x portion) and the injection of those rows by "
+                "txs_to_delta_list: neither got through CBMC (DESIGN.md 0.6), so 'added exactly once, in full' is "
+                "decided only up to the portions and for a given SfLA row; telescoping of the per-row identities over a "
+                "history is a paper step"),
+}
+CLAIMS["C03"] = {
+    "text": ("Bounded model checking of the two ends of the redistribution: (a) the window scan's per-buyer portions -- each "
+             "buying affiliate's end-of-window holding over the buyers' total, registered buyers included in the ratio, the "
+             "'potentially over-applied' flag exactly when the buyers hold less than the denied share count; (b) the ledger "
+             "rows -- an SfLA row adds exactly its amount to its affiliate's cost base, is rejected for a registered "
+             "affiliate, and a sale realises proceeds - commission - removed cost, so every row satisfies the local "
+             "conservation identity."),
+    "note": (TRUSTED + "NOT covered: the conversion of the portions into adjustment rows and their injection after the "
+             "sale (see evidence.outside_bounds); histories are covered by telescoping the per-row identity on paper."),
+    "design_ref": "DESIGN.md 0, 0.6, 5 C03",
+}
+NOT_APPLICABLE.pop("C03", None)
